@@ -305,3 +305,13 @@ def rule_commit(ctx):
 
 
 RULES.append(("C10.j", "branch-commit: between the decision to perform an effect and the effect there is no way out", rule_commit))
+
+
+def rule_deps(ctx):
+    from . import c08, c20
+    c20.rule_a(ctx)
+    c20.rule_b(ctx)
+    c08.rule_c(ctx)
+
+
+RULES.append(("C10.k", "queue order (C20.a/b) and rejection of null periods (C08.c)", rule_deps))
